@@ -43,6 +43,48 @@ class Ctx:
         return p
 
 
+def parse_replay(path):
+    hdr, body, inbody = {}, [], False
+    for line in open(path).read().split("\n"):
+        if not inbody:
+            if line.strip() == "----":
+                inbody = True
+            elif ": " in line:
+                k, v = line.split(": ", 1)
+                hdr[k.strip()] = v.strip()
+        elif line.strip():
+            body.append(line)
+    return hdr, body
+
+
+def do_replay(ctx, prop, path, hdr, body):
+    """Re-run the recorded input on the implementation built from /repo's working
+    tree and on the model; a plugin may provide replay(ctx, hdr, body) -> (ok, text)."""
+    import re, runner
+    b = buildmod.build()
+    lb = auditmod.lake_build(targets=("modeldrv",))
+    if not b["ok"] or not lb["ok"]:
+        print("replay: build failed")
+        return 1
+    if hasattr(prop, "replay"):
+        ok, text = prop.replay(ctx, hdr, body)
+        print(text)
+    else:
+        script = [l for l in body if not re.match(r"^[A-Za-z_()0-9 ]{1,20}: ", l)]
+        stateless = getattr(prop, "STATELESS", True)
+        hout, reports = runner.run_harness_script(script, stateless=stateless)
+        mout = runner.run_model_script(script)
+        ok = True
+        for l, h, m in zip(script, hout, mout):
+            same = h == m
+            ok = ok and same
+            print("%s\n   impl:  %s\n   model: %s%s" % (l[:300], h[:300], m[:300], "" if same else "   <-- differ"))
+        print("recorded verdict: %s" % hdr.get("what", "(none)"))
+    if not ok:
+        print("VIOLATION property=%s replay=%s" % (ctx.pid, path))
+    return 0 if ok else 1
+
+
 def load_known():
     try:
         return json.load(open(os.path.join(VERIF, "known_findings.json")))
@@ -64,6 +106,12 @@ def main():
     violations = []     # (replay_path, suffix)
     known_lines = []
     ev_extra = {}
+
+    if a.replay:
+        hdr, body = parse_replay(a.replay)
+        if hdr.get("kind") not in ("theorem", "correspondence", "build-failure"):
+            return do_replay(ctx, prop, a.replay, hdr, body)
+        # a broken proof / correspondence replays as the check itself
 
     # 1. build from the working tree
     b = buildmod.build()
@@ -94,7 +142,7 @@ def main():
         lb2 = auditmod.lake_build(targets=("modeldrv",))
         ev_extra["lake_build"]["driver_only_ok"] = lb2["ok"]
     if lb["ok"]:
-        arep = auditmod.audit(prop.THEOREMS)
+        arep = auditmod.audit(prop.THEOREMS, imports=tuple(getattr(prop, "LEAN_MODULES", ["Properties"])))
         proof_ok = arep["ok"]
         if tier == "thorough":
             lc = auditmod.leanchecker(getattr(prop, "LEAN_MODULES", []))
